@@ -112,20 +112,29 @@ theorem C14_nominal (env : Env) (d : Decl) :
 /-! ## start values -/
 
 /-- **A fixed start value is the initial condition**: for a state with `fixed = true` whose start
-    resolves to `x`, `history` holds exactly the value `python_type(x)` at `t0` (replacing any
+    resolves to `x`, `history` holds exactly the value `x` at `t0` (`startCast`: through `python_type` when
+    pymoca delivers an `MX`, which changes nothing for a Real) (replacing any
     inherited entry); a fixed parameter-dependent start that does not resolve raises; a non-fixed
     state gets no entry (an inherited one stays). -/
 theorem C14_fixed_start_is_initial_condition (env : Env) (d : Decl) :
-    (d.fixed = true → ∀ x, d.start.resolve env = .val x → historyOf env d = .put (cast d.ptype x)) ∧
+    (d.fixed = true → ∀ x, d.start.resolve env = .val x → historyOf env d = .put (startCast d x)) ∧
+    (d.ptype = .real → ∀ x, startCast d x = x) ∧
     (d.fixed = true → (∀ x, d.start.resolve env ≠ .val x) → historyOf env d = .raise) ∧
     (d.fixed = false → historyOf env d = .keep) := by
-  refine ⟨?_, ?_, ?_⟩
+  refine ⟨?_, ?_, ?_, ?_⟩
   · intro hf x hx
-    unfold historyOf
+    unfold historyOf startCast
     simp only [hf, if_true]
     cases hs : d.start with
-    | lit y mx => rw [hs] at hx; simp [Attr.resolve] at hx; simp [hx]
+    | lit y mx =>
+      rw [hs] at hx; simp [Attr.resolve] at hx
+      cases mx <;> simp [hx]
     | sym a p b => rw [hs] at hx; simp [hx]
+  · intro hp x
+    unfold startCast
+    cases d.start with
+    | lit y mx => cases mx <;> simp [hp, cast]
+    | sym a p b => simp [hp, cast]
   · intro hf hx
     unfold historyOf
     simp only [hf, if_true]
